@@ -23,7 +23,9 @@ RULE = (
     "field in the parameter of the same name, then the map is built. R4 SourceMap::add converts each of the four 1-based "
     "coordinates with exactly -1 and hands them to sourcemap::SourceMapBuilder::add in (dst_line, dst_col, src_line, src_col) order "
     "with the name. R5 (the map on disk belongs to the output on disk) in CmdBuild::exec's emit loop every path from the write-mode write "
-    "of `dst` to the next loop iteration passes the write of `map`, except over the `sourcemap_target == None` edge (error returns leave the loop)."
+    "of `dst` to the next loop iteration passes the write of `map`, except over the `sourcemap_target == None` edge (error returns leave the loop). R6 a token emitted as empty text is filtered out by an is_empty test in "
+    "push_token, emit_anchored, Emitter::emit or SourceMap::add before it becomes a map entry. R7 push_token anchors a token only after a test of "
+    "its `source` (the file it was read from), or SourceMap::add passes a per-entry source to the builder."
 )
 
 CRATES = ["veryl_emitter", "veryl_pretty", "veryl_sourcemap", "veryl"]
@@ -138,6 +140,8 @@ def run(world, tier, info, only=None):
     c28.col_units(ck, w, R6="R2", floor=False)
 
     map_written_with_output(ck, w)
+    empty_anchor_filter(ck, w)
+    own_file_anchor(ck, w, argx)
     # ---------------- R3 Emitter::emit ---------------------------------------------------------------------
     s = w.fns[E + "emit"]
     f = Fn(w.mir(E + "emit"))
@@ -201,6 +205,89 @@ def run(world, tier, info, only=None):
     ck.analysed = {"functions": [E + "push_token", E + "process_comment", E + "emit", "veryl_pretty::doc::anchored", "veryl_pretty::render::emit_anchored",
                                  "veryl_pretty::render::render_comments", "veryl_sourcemap::sourcemap::SourceMap::add"]}
     return ck.finish(info)
+
+
+def _nonempty_guard(g, targets):
+    """does every target block run only where some <str>.is_empty() call returned false (must-facts, through && / ! lowering)?"""
+    if not targets:
+        return False
+    ies = [bi for bi, t in g.calls(r"(str>|String|impl str>)::is_empty$")]
+    if not ies:
+        return False
+    mf = MustFacts(g)
+    for b in targets:
+        F = mf.at_entry(b)
+        if F is None:
+            continue
+        if not any(a[0] == "ret" and a[1] in ies and a[2] is False for a in F):
+            return False
+    return True
+
+
+def empty_anchor_filter(ck, w):
+    """R6: a token emitted as empty text (a dropped trailing comma: `replace("")`) has no output position of its own - after
+    strip_trailing_whitespace it can even lie beyond the end of its line - so it must not become a map entry. One of the four stages
+    (push_token, emit_anchored, Emitter::emit's loop, SourceMap::add) has to drop it."""
+    stages = []
+    p = E + "push_token"
+    g = Fn(w.mir(p))
+    stages.append(("push_token", _nonempty_guard(g, [bi for bi, t in g.calls(r"^veryl_pretty::doc::anchored$")])))
+    p = "veryl_pretty::render::emit_anchored"
+    g = Fn(w.mir(p))
+    stages.append(("emit_anchored", _nonempty_guard(g, [bi for bi, t in g.calls(c28.VEC_PUSH) if flow.access_path(g, t["args"][0])[1] == ("anchors",)])))
+    p = E + "emit"
+    g = Fn(w.mir(p))
+    stages.append(("Emitter::emit", _nonempty_guard(g, [bi for bi, t in g.calls(r"^veryl_sourcemap::sourcemap::SourceMap::add$")])))
+    p = "veryl_sourcemap::sourcemap::SourceMap::add"
+    g = Fn(w.mir(p))
+    stages.append(("SourceMap::add", _nonempty_guard(g, [bi for bi, t in g.calls(r"SourceMapBuilder::add$")])))
+    ok = any(v for _, v in stages)
+    ck.ob("R6", "empty-text-anchor-filtered", ok, site(w.fns[E + "push_token"]),
+          "tokens emitted as empty text are dropped before they become map entries (%s)" % [n for n, v in stages if v] if ok else
+          "none of push_token, emit_anchored, Emitter::emit, SourceMap::add tests the text for emptiness: a token emitted as \"\" (the trailing "
+          "comma dropped from a parameter / port list) becomes a map entry with an empty name whose output position lies after the trailing "
+          "blanks that strip_trailing_whitespace removes, i.e. outside the emitted line")
+
+
+def own_file_anchor(ck, w, argx):
+    """R7: a token whose text came from another file (the body of a generic function / package item instantiated here) carries that
+    file's line and column. Either push_token anchors only tokens whose `source` is the file being emitted, or the map entry names the
+    token's own file (SourceMap::add passes a per-entry source to the builder instead of self.src_path_from_map)."""
+    p = E + "push_token"
+    g = Fn(w.mir(p))
+    targets = [bi for bi, t in g.calls(r"^veryl_pretty::doc::anchored$")]
+    tests = set()
+    for bi, b in enumerate(g.blocks):
+        if b.get("cu"):
+            continue
+        t = b["t"]
+        ops = []
+        if t["t"] == "sw" and t.get("of") is not None:
+            ops = [["c", t["of"]]] if isinstance(t["of"], list) else []
+        elif t["t"] == "call" and re.search(r"PartialEq(<.*>)?>?::(eq|ne)$|::matches_source$|::is_own_file$", t.get("callee") or ""):
+            ops = t["args"]
+        for o in ops:
+            try:
+                r, pth = flow.access_path(g, o)
+            except Exception:
+                continue
+            if r == ("arg", argx) and pth[:1] == ("source",):
+                tests.add(bi)
+    guarded = bool(tests) and bool(targets) and not any(tb in g.reach_from(0, avoid=list(tests)) for tb in targets)
+    a = "veryl_sourcemap::sourcemap::SourceMap::add"
+    ga = Fn(w.mir(a))
+    per_entry = False
+    for bi, t in ga.calls(r"SourceMapBuilder::add$"):
+        if len(t["args"]) > 5:
+            for r, pth in flow.access_paths(ga, t["args"][5]):
+                if r[0] == "arg" and r[1] != 1:
+                    per_entry = True
+    ok = guarded or per_entry
+    ck.ob("R7", "anchor-names-the-token's-file", ok, site(w.fns[p]),
+          "foreign-file tokens are %s" % ("not anchored" if guarded else "mapped to their own file") if ok else
+          "push_token anchors every token that has a line and column, whatever file its `source` is, and SourceMap::add names the emitted "
+          "file as the source of every entry: the body of a generic function or package item defined in another file and instantiated "
+          "here is mapped to line/column pairs of the other file inside this file's source")
 
 
 def map_written_with_output(ck, w):
